@@ -36,7 +36,9 @@ func parse[N Node](ps *parser, n N) parsed[N] {
 	n.n().From = begin
 	n.parse(ps)
 	n.n().To = ps.pos
-	n.n().sourceText = ps.src[begin:ps.pos]
+	// Use the node's own From rather than begin: Redir.parse moves From back
+	// to include a left-hand side that was parsed before the node was created.
+	n.n().sourceText = ps.src[n.n().From:ps.pos]
 	return parsed[N]{n}
 }
 
